@@ -17,9 +17,9 @@ pub fn plan(prop: &'static str) -> Plan {
     match prop {
         "C03" => Plan { prop, seeds: all_seeds, runs: vec![(Profile::Tree, 2, 3), (Profile::Files, 2, 2), (Profile::All, 1, 2)], stale: true },
         "C04" => Plan { prop, seeds: all_seeds, runs: vec![(Profile::Tree, 2, 3), (Profile::Files, 2, 3), (Profile::All, 1, 2)], stale: false },
-        "C05" => Plan { prop, seeds: vec!["refs", "nested", "twofile", "lenient"], runs: vec![(Profile::Refs, 2, 3), (Profile::All, 1, 2)], stale: false },
-        "C06" => Plan { prop, seeds: vec!["refs", "nested", "twofile"], runs: vec![(Profile::Refs, 2, 3), (Profile::Core, 2, 3)], stale: false },
-        "C10" => Plan { prop, seeds: vec!["twofile", "refs", "empty", "lastfile"], runs: vec![(Profile::Files, 2, 3), (Profile::All, 1, 1)], stale: false },
+        "C05" => Plan { prop, seeds: vec!["refs", "nested", "twofile", "samever", "lenient"], runs: vec![(Profile::Refs, 2, 3), (Profile::All, 1, 2)], stale: false },
+        "C06" => Plan { prop, seeds: vec!["refs", "nested", "twofile", "samever"], runs: vec![(Profile::Refs, 2, 3), (Profile::Core, 2, 3)], stale: false },
+        "C10" => Plan { prop, seeds: vec!["twofile", "samever", "refs", "empty", "lastfile"], runs: vec![(Profile::Files, 2, 3), (Profile::All, 1, 2)], stale: false },
         "C11" => Plan { prop, seeds: all_seeds, runs: vec![(Profile::All, 1, 2), (Profile::Files, 2, 3)], stale: false },
         "C12" => Plan { prop, seeds: all_seeds, runs: vec![(Profile::All, 1, 2), (Profile::Core, 2, 3)], stale: true },
         "C13" => Plan { prop, seeds: vec!["refs", "nested", "twofile", "lenient"], runs: vec![(Profile::Tree, 2, 3)], stale: false },
@@ -71,6 +71,11 @@ pub fn run(prop: &'static str, tier: Tier) -> i32 {
         extra_states += s;
         extra_transitions += t;
         let (s, t) = super::c13::cross_version_copy(&ctx, tier);
+        extra_states += s;
+        extra_transitions += t;
+    }
+    if prop == "C12" {
+        let (s, t) = super::c12::value_api_sweep(&ctx, tier);
         extra_states += s;
         extra_transitions += t;
     }
